@@ -238,7 +238,11 @@ func (tr *FnTrans) instr(in ssa.Instruction) {
 		v := tr.val(x.Value)
 		tr.oblig("nilmap", "", sNot(sEq(m.T, "0")), "assignment to entry in nil map at "+tr.posStr(x.Pos()))
 		tr.lockCheck(x.Map, true, x.Pos())
-		tr.mapStore(m, k.T, v.T, true)
+		vt := v.T
+		if v.K == KStruct && len(v.Fields) == 0 {
+			vt = "0" // map[K]struct{}
+		}
+		tr.mapStore(m, k.T, vt, true)
 	case *ssa.Range:
 		tr.rangeInit(x)
 	case *ssa.Next:
@@ -908,6 +912,16 @@ func (tr *FnTrans) lookup(x *ssa.Lookup) {
 	has := sAnd(sNot(sEq(m.T, "0")), sSel(sSel(vc.hget(tr.cur, mh), m.T), k.T))
 	hn := vc.fresh(tr.ssaName(x)+".has", sortBool)
 	vc.fact(sEq(hn, has), "")
+	if st, ok := mt.Elem().Underlying().(*types.Struct); ok && st.NumFields() == 0 {
+		// map[K]struct{}: only presence matters
+		ev := Val{K: KStruct, Typ: mt.Elem()}
+		if x.CommaOk {
+			tr.vals[x] = Val{K: KTuple, Fields: []Val{ev, {K: KBool, T: hn, Typ: types.Typ[types.Bool]}}}
+		} else {
+			tr.vals[x] = ev
+		}
+		return
+	}
 	z := vc.zero(mt.Elem())
 	val := scalarVal(mt.Elem(), sIte(hn, sSel(sSel(vc.hget(tr.cur, mv), m.T), k.T), z.T))
 	n := vc.fresh(tr.ssaName(x), kindSort(val.K))
